@@ -4,6 +4,7 @@ Tie for C11: the tables the decoder models use equal the ones regenerated from t
 go/cmd/extract/panics.go against lean/expectations/C11.json.)
 -/
 import Hts.Model.Decoders
+import Hts.Props.C11
 import Hts.Gen.Sam
 set_option maxRecDepth 8192
 namespace Hts.Tie.C11
@@ -21,5 +22,60 @@ theorem tie_cigarOps : Hts.Gen.Sam.cigarOps = cigarOpsTab.map (fun c => (c.toNat
 /-- `len(consume)`, the bound `CigarOpType.Consumes` tests against, and `lastCigar` -/
 theorem tie_consume_length : Hts.Gen.Sam.consume.length = Hts.Model.Coord.consumeTab.length ∧
     Hts.Model.Coord.consumeTab.length = lastCigar + 1 := by decide
+
+/-! ### registry of the theorems cited by lean/expectations/C11.json
+
+For every theorem a `lemma:` / `model:` justification may cite: the Go functions its model mirrors.
+`"ops"`: the model contains the partial operations of that function (index / slice / make / explicit
+panic as `Outcome.panic` or a dedicated panic outcome), so the theorem discharges them.
+`"guards"`: the model (another property's, value-level) represents those sites by the dominating guard
+only (a pattern match on enough fields, an error branch for a negative count); the theorem shows that no
+panic outcome is reachable in it, the site itself is justified by the guard named in the entry.
+The double-backquoted names do not elaborate unless the theorem exists in the built environment
+(this file is built by every `bin/check C11`); go/cmd/harness/c11_inventory.go reads the table and
+rejects a citation whose theorem is not registered for the function of the site. -/
+def citations : List (Lean.Name × String × List String) := [
+  (``Hts.Props.C11.atoi_total, "ops", ["sam.atoi"]),
+  (``Hts.Props.C11.parseCigar_total, "ops", ["sam.ParseCigar", "sam.NewCigarOp", "sam.atoi"]),
+  (``Hts.Props.C11.consumes_total, "ops", ["sam.CigarOpType.Consumes"]),
+  (``Hts.Props.C11.coord_accessors_total, "ops", ["sam.CigarOpType.Consumes"]),
+  (``Hts.Props.C11.opString_total, "ops", ["sam.CigarOpType.String"]),
+  (``Hts.Props.C11.isValid_total, "ops", ["sam.Cigar.IsValid"]),
+  (``Hts.Props.C11.parseAux_total, "ops", ["sam.ParseAux"]),
+  (``Hts.Props.C11.aux_accessors_safe, "ops",
+    ["sam.Aux.Kind", "sam.Aux.Type", "sam.Aux.Tag", "sam.Aux.String", "sam.Aux.Value", "sam.samAux.String", "sam.Aux.matches"]),
+  (``Hts.Props.C11.parseAux_accessors_safe, "ops",
+    ["sam.Aux.Kind", "sam.Aux.Type", "sam.Aux.Tag", "sam.Aux.String", "sam.Aux.Value", "sam.samAux.String", "sam.Aux.matches"]),
+  (``Hts.Props.C11.parseAuxBam_accessors_safe, "ops",
+    ["sam.Aux.Kind", "sam.Aux.Type", "sam.Aux.Tag", "sam.Aux.String", "sam.Aux.Value", "sam.samAux.String", "sam.Aux.matches"]),
+  (``Hts.Props.C11.parseAuxBam_total, "ops", ["bam.parseAux"]),
+  (``Hts.Props.C11.itf8_decode_total, "ops", ["cram/encoding/itf8.Decode"]),
+  (``Hts.Props.C11.ltf8_decode_total, "ops", ["cram/encoding/ltf8.Decode"]),
+  (``Hts.Props.C11.itf8_stream_total, "ops", ["cram.errorReader.itf8"]),
+  (``Hts.Props.C11.ltf8_stream_total, "ops", ["cram.errorReader.ltf8"]),
+  (``Hts.Props.C11.readBAI_total, "ops",
+    ["internal.readBins", "internal.readChunks", "internal.readIndices", "internal.readIntervals"]),
+  (``Hts.Props.C11.readTabix_total, "ops",
+    ["internal.readBins", "internal.readChunks", "internal.readIndices", "internal.readIntervals", "tabix.readTabixHeader"]),
+  (``Hts.Props.C11.headerTagLine_total, "ops",
+    ["sam.headerLine", "sam.referenceLine", "sam.readGroupLine", "sam.programLine"]),
+  (``Hts.Props.C11.headerDispatch_total, "ops", ["sam.commentLine", "sam.Header.UnmarshalText"]),
+  (``Hts.Props.C11.headerMD5_total, "ops", ["sam.referenceLine"]),
+  (``Hts.Props.C11.headerRefs_invariant, "ops", ["sam.referenceLine"]),
+  (``Hts.Props.C11.headerText_total, "guards",
+    ["sam.headerLine", "sam.referenceLine", "sam.readGroupLine", "sam.programLine", "sam.commentLine",
+     "sam.Header.UnmarshalText"]),
+  (``Hts.Props.C11.headerBinary_total, "guards", ["sam.Header.DecodeBinary", "sam.readRefRecords"]),
+  (``Hts.Props.C11.bamRead_total, "ops",
+    ["bam.Reader.Read", "bam.buffer.readInt32", "bam.buffer.readUint16", "bam.buffer.readUint8",
+     "bam.buffer.unsafeBytes", "bam.readCigarOps"]),
+  (``Hts.Props.C11.bamNewBuffer_total, "ops", ["bam.newBuffer"]),
+  (``Hts.Props.C11.unmarshalSAM_total, "guards", ["sam.Record.UnmarshalSAM"]),
+  (``Hts.Props.C11.samReaderLine_total, "ops", ["sam.Reader.Read"]),
+  (``Hts.Props.C11.readCSI_total, "guards", ["csi.ReadFrom", "csi.readBins", "csi.readChunks", "csi.readIndices"]),
+  (``Hts.Props.C11.fai_accessors_safe, "ops", ["fai.Record.endOfLineOffset"]),
+  (``Hts.Props.C11.fai_accessors_safe, "guards", ["fai.Record.position"]),
+  (``Hts.Props.C11.bgzfExpectedMemberSize_total, "ops", ["bgzf.expectedMemberSize"]),
+  (``Hts.Props.C11.bgzfReadLimited_total, "ops", ["bgzf.buffer.readLimited"])]
 
 end Hts.Tie.C11
